@@ -14,6 +14,7 @@ import warnings
 
 from ..core import (Violation, HarnessError, StepCap, Env, stream, sut, exc_name, exc_class,
                     InjectedFault, FAULT_EXCS)
+from ..core import deep
 
 ID = "C19"
 UNSET = "<unset>"
@@ -442,7 +443,7 @@ class Prop:
     def gen(self, seed):
         c = stream(seed, "config")
         r = stream(seed, "ops")
-        nobj = c.randint(2, 3)
+        nobj = deep(c, [2, 3], [4])
         handlers = []
         names_otc = ["v", "items", "items_items", "d_items", "s_items", "p", "cp", "dv", "u", "child",
                      "dflt", "sup", "sv"]
@@ -453,7 +454,7 @@ class Prop:
             handlers.append({"id": "h%d" % j, "mech": mech, "o": c.randrange(nobj),
                              "name": c.choice(names_otc if mech == "otc" else names_obs),
                              "initial": c.random() < 0.8})
-        nops = c.choice([3, 5, 8, 11, 14])
+        nops = deep(c, [3, 5, 8, 11, 14], [18, 22])
         ctr = [10]
 
         def fresh():
